@@ -90,12 +90,15 @@ JudgeNewStr(e) ==
      ELSE IF ~Consistent(e.res) THEN V("NewStr.LenText", FALSE)
      ELSE V("ok", TRUE)
 
-\* shared_atts: m[i] = 0 not reported, else 1 + raw value code; every character must have it (display level)
+\* shared_atts: m[i] = 0 not reported, else 1 + raw value code; every character must have that value.  Values are
+\* compared as a reader of the mapping sees them: absent and explicit False are the same (nothing shown), True is
+\* another value, and an explicit None (a style forwarded as `bold=flag_or_None`, code 3) is a third one - a
+\* character without the attribute does not "have" None.
 JudgeShared(e) ==
-  LET cs == Cells(e.f)
+  LET norm(v, i) == IF i > 2 /\ v = 1 THEN 0 ELSE v
   IN IF e.k = "exc" THEN V("ok", FALSE)     \* nothing reported
-     ELSE IF \E i \in AttIdx : e.m[i] # 0 /\ \E k \in 1..Len(cs) :
-                  cs[k][2][i] # (IF i <= 2 THEN e.m[i] - 1 ELSE IF e.m[i] - 1 = 2 THEN 1 ELSE 0)
+     ELSE IF \E i \in AttIdx : e.m[i] # 0 /\ \E r \in 1..Len(e.f) :
+                  e.f[r][1] # <<>> /\ norm(e.f[r][2][i], i) # norm(e.m[i] - 1, i)
           THEN V("Shared.NotShared", FALSE)
      ELSE V("ok", TRUE)
 
